@@ -77,8 +77,15 @@ type CallSite struct {
 // StaticCallSites lists the module call sites (call/go/defer) that statically invoke fn.
 func (p *Prog) StaticCallSites(fn *ssa.Function) []CallSite {
 	var out []CallSite
+	seen := map[ssa.CallInstruction]bool{}
 	for _, e := range p.CallersOf(fn) {
-		if StaticCallee(e.Site.Common()) == fn {
+		if StaticCallee(e.Site.Common()) == fn && !seen[e.Site] {
+			seen[e.Site] = true
+			// a promoted-method wrapper that go/ssa made for an embedding type (Session embeds
+			// *Server, so (*Session).acceptNext exists) and that nothing calls is no call site
+			if c := e.Caller.Func; c.Synthetic != "" && c.Parent() == nil && len(p.CallersOf(c)) == 0 {
+				continue
+			}
 			out = append(out, CallSite{e.Site, e.Site.Common().Args})
 		}
 	}
@@ -378,10 +385,42 @@ func soleCallOfClosure(fn *ssa.Function) *ssa.Call {
 		switch x := ref.(type) {
 		case *ssa.DebugRef:
 		case *ssa.Call:
-			if x.Call.Value != ssa.Value(mcs[0]) || call != nil {
+			if call != nil {
 				return nil
 			}
-			call = x
+			if x.Call.Value == ssa.Value(mcs[0]) {
+				call = x
+				continue
+			}
+			// handed to a function of the module that does nothing with it but call it, at one
+			// place (storeEach(list, func(mb string) *Delivery {…}) … build(mb)): that call
+			g := StaticCallee(x.Common())
+			if g == nil || !InModule(g) || len(g.Blocks) == 0 || len(g.Params) != len(x.Call.Args) {
+				return nil
+			}
+			for i, a := range x.Call.Args {
+				if a != ssa.Value(mcs[0]) {
+					continue
+				}
+				if g.Params[i].Referrers() == nil {
+					return nil
+				}
+				for _, pr := range *g.Params[i].Referrers() {
+					switch y := pr.(type) {
+					case *ssa.DebugRef:
+					case *ssa.Call:
+						if y.Call.Value != ssa.Value(g.Params[i]) || call != nil {
+							return nil
+						}
+						call = y
+					default:
+						return nil
+					}
+				}
+			}
+			if call == nil {
+				return nil
+			}
 		default:
 			return nil
 		}
